@@ -23,10 +23,17 @@ INTS = ["int8_t", "uint8_t", "int16_t", "uint16_t", "int32_t", "uint32_t", "int6
 FLTS = ["float", "double"]
 USING = "".join("using std::%s; " % t for t in INTS) + "\n"
 FACTORS = [Fraction(1), Fraction(12), Fraction(1, 12), Fraction(1000), Fraction(1, 1000), Fraction(3, 2), Fraction(5, 9),
-           Fraction(2 ** 31 - 1), Fraction(10 ** 6), Fraction(1, 3), Fraction(128), Fraction(1, 128), Fraction(65536), Fraction(7, 1000003)]
+           Fraction(2 ** 31 - 1), Fraction(10 ** 6), Fraction(1, 3), Fraction(128), Fraction(1, 128), Fraction(65536), Fraction(7, 1000003),
+           # factors beyond 2^32: a NARROW source widened into a 64-bit common type can leave it
+           Fraction(10 ** 12), Fraction(2 ** 40), Fraction(1, 10 ** 12), Fraction(3, 2 ** 40), Fraction(2 ** 40, 3)]
+BIG_FACTORS = [Fraction(10 ** 12), Fraction(2 ** 40), Fraction(1, 10 ** 12), Fraction(3, 2 ** 40), Fraction(2 ** 40, 3)]
 
 
 def mexpr(fr):
+    if fr.denominator == 1 and fr.numerator >= 1 << 64 and fr.numerator & (fr.numerator - 1) == 0:
+        return "au::pow<%d>(au::mag<2>())" % (fr.numerator.bit_length() - 1)
+    if fr.denominator == 1 and fr.numerator >= 1 << 64 and fr.numerator % 3 == 0 and (fr.numerator // 3) & (fr.numerator // 3 - 1) == 0:
+        return "au::mag<3>() * au::pow<%d>(au::mag<2>())" % ((fr.numerator // 3).bit_length() - 1)
     s = "au::mag<%dULL>()" % fr.numerator
     return s + (" / au::mag<%dULL>()" % fr.denominator if fr.denominator != 1 else "")
 
@@ -63,7 +70,7 @@ def analyse_int_int(mod, k, S, D, fr, fs):
     bits, signed = model.INT_TYPES[model.canon(D)]
     lo, hi = model.int_range(S)
     part = cells.analyse(roots, lo, hi, ret_views={"conv": (bits, signed), "conva": (bits, signed)},
-                         arith={"conv": dg["conv"].arith, "conva": dg["conva"].arith}, wrap_roots=("lossy", "ovf", "trunc"))
+                         arith={nm: dg[nm].arith for nm in ("conv", "conva", "lossy", "ovf", "trunc")}, wrap_roots=("lossy", "ovf", "trunc"))
     C = model.common_type(S, D)
     P = model.promote(C)
     clo, chi = model.int_range(C)
@@ -73,7 +80,16 @@ def analyse_int_int(mod, k, S, D, fr, fs):
     b5 = max(-((-max(plo, clo * Dd, dlo * Dd)) // N), clo)
     nob = ndis = 0
     for cell, res in part:
-        ub = [(nm, res[nm]) for nm in ("lossy", "ovf", "trunc") if isinstance(res[nm], cells.Bad)]
+        # (every arithmetic instruction of a checker counts, also one whose result the optimiser no
+        #  longer uses: the constant evaluator, and the abstract machine, still perform it)
+        ub = [(nm, res[nm]) for nm in ("lossy", "ovf", "trunc") if isinstance(res[nm], cells.Bad)] + \
+             [(nm, res["!" + nm]) for nm in ("lossy", "ovf", "trunc") if isinstance(res.get("!" + nm), cells.Bad) and res["!" + nm].kind in ("signed-overflow", "division-by-zero")]
+        if ub and ub[0][1].kind == "remainder-narrowed":
+            nm, v = ub[0]
+            fs.append((key + "|checker-%s-narrowed-remainder" % nm, "%s<%s> answers false for x=%d although the scaled value is not an integer: %s (%s)"
+                       % ({"lossy": "is_conversion_lossy", "trunc": "will_conversion_truncate", "ovf": "will_conversion_overflow"}[nm], D, v.example, v.detail, key), ""))
+            nob += 1
+            continue
         if ub:
             nm, v = ub[0]
             fs.append((key + "|checker-%s-undefined" % nm, "evaluating the %s<%s> checker itself is undefined for x=%d: %s at %s (%s)"
@@ -201,7 +217,86 @@ def analyse_int_to_float(mod, k, S, D, fr, fs, irrational=False):
     if abs(got - fr) > abs(fr) * Fraction(1, 2 ** (prec - 2)) or nfl > 2:
         fs.append((key + "|constant", "integral -> floating conversion scales by %r in %d steps, the factor is %r (%s)" % (float(got), nfl, float(fr), key), d.ret.pretty()))
         return 1, 0
-    return 1, 1
+    if irrational:
+        return 1, 1
+    # the checkers for an integral source and a floating target: "overflow is reported only when some
+    # step's exact value really leaves that step's range", and a cleared value converts to a finite one.
+    # The overflow checker must be the two-sided threshold test on the converted value; with the
+    # (monotone) integer -> floating rounding the flagged set is [t, max] (and its mirror): the
+    # obligations are decided at the two values next to each threshold, for all x at once.
+    nob, ndis = 1, 1
+    lo, hi = model.int_range(S)
+    mx = fcells.fmax(D)
+    F = got  # the constant the conversion really multiplies by
+
+    def fl(x):
+        return fcells.fp_round(Fraction(x), D)
+
+    def conv_overflows(x):
+        return fcells.fp_round(fl(x) * F, D) in (fcells.INF, fcells.NINF)
+
+    for nm in ("ovf", "lossy"):
+        r = dag.build(mod.funcs["%s_%d" % (nm, k)], mod).ret
+        nob += 1
+        thr = None
+        if r.is_const():
+            flagged = (lambda x, v=bool(r.cval()): v)
+        else:
+            parts = list(r.args) if r.op == "or" else [r]
+            cs = []
+            for c in parts:
+                if c.op == "fcmp" and c.attr in ("olt", "ogt", "ole", "oge") and len(c.args) == 2:
+                    a0, a1 = c.args
+                    cv = lambda n: n.op in ("sitofp", "uitofp") and n.args[0].op in ("param", "sext", "zext")
+                    if a0.is_const() and cv(a1):
+                        cs.append((c.attr, "const-left", a0.cval()))
+                    elif a1.is_const() and cv(a0):
+                        cs.append((c.attr, "const-right", a1.cval()))
+            if len(cs) != len(parts) or not cs:
+                fs.append((key + "|%s-shape" % nm, "the %s<%s> checker of an integral source is not a threshold test on the converted value (%s)" % (nm, D, key), r.pretty()))
+                continue
+
+            def flagged(x, cs=cs):
+                v = fl(x)
+                for pred, side, c in cs:
+                    a, b = (c, v) if side == "const-left" else (v, c)
+                    if {"olt": a < b, "ogt": a > b, "ole": a <= b, "oge": a >= b}[pred]:
+                        return True
+                return False
+        # thresholds by bisection on the monotone predicate, positive and negative side
+        bad = None
+        for sign in (1, -1):
+            end = hi if sign > 0 else lo
+            if end == 0 or (sign < 0 and lo >= 0):
+                continue
+            a, b = 0, abs(end)  # flagged(sign*a) assumed false at 0
+            if flagged(0):
+                bad = ("flags x=0", 0)
+                break
+            if not flagged(sign * b):
+                t = None
+            else:
+                while b - a > 1:
+                    m = (a + b) // 2
+                    if flagged(sign * m):
+                        b = m
+                    else:
+                        a = m
+                t = b
+            first_flagged = sign * t if t is not None else None
+            last_clear = sign * (t - 1) if t is not None else end
+            if first_flagged is not None and abs(fl(first_flagged)) * F <= mx and abs(Fraction(first_flagged)) * F <= mx:
+                bad = ("%s<%s> is TRUE for x=%d although the cast is exact or in range and the scaled value %s x %s does not exceed the largest finite %s" % (
+                    "will_conversion_overflow" if nm == "ovf" else "is_conversion_lossy", D, first_flagged, first_flagged, float(F), D), first_flagged)
+                break
+            if conv_overflows(last_clear):
+                bad = ("%s<%s> is false for x=%d but the conversion result is infinite" % ("will_conversion_overflow" if nm == "ovf" else "is_conversion_lossy", D, last_clear), last_clear)
+                break
+        if bad:
+            fs.append((key + "|%s-threshold" % nm, bad[0] + " (%s)" % key, r.pretty()))
+        else:
+            ndis += 1
+    return nob, ndis
 
 
 def body(ctx):
@@ -217,11 +312,19 @@ def body(ctx):
                 insts.append((S, D, fr, False))
             if model.is_fp(model.common_type(S, D)):
                 insts.append((S, D, Fraction(1), True))
+            if model.is_int(S) and model.is_fp(D):
+                # factors that bring an integral count to the edge of the floating range
+                for e in ((100, 104, 127) if D == "float" else (1000, 971, 1023)):
+                    insts.append((S, D, Fraction(2 ** e), False))
+                    insts.append((S, D, Fraction(3 * 2 ** (e - 2)), False))
     if not ctx.thorough:
         keep = [i for i in insts if model.is_fp(i[0]) and i[2] in (Fraction(1), Fraction(12), Fraction(1, 1000), Fraction(5, 9))]
         rest = [i for i in insts if i not in keep]
         insts = keep[:] if len(keep) < 200 else rnd.sample(keep, 200)
         insts += rnd.sample(rest, 220)
+        # always: a 32-bit (and a 16-bit) source into a 64-bit target with the factors beyond 2^32
+        insts += [i for i in rest if i[2] in BIG_FACTORS and i[0] in ("int32_t", "uint32_t", "int16_t") and i[1] in ("int64_t", "uint64_t") and i not in insts]
+        insts += [i for i in rest if model.is_int(i[0]) and model.is_fp(i[1]) and i[2] >= 2 ** 64 and i[0] in ("int32_t", "uint64_t", "int8_t", "uint16_t") and i not in insts]
     ctx.log("%d instances (source rep, target rep, factor)" % len(insts))
     prelude = "#include <cstdint>\n#include \"au/au.hh\"\n" + USING
     chunks = [list(enumerate(insts))[i:i + 18] for i in range(0, len(insts), 18)]
